@@ -380,14 +380,14 @@ theorem new_phase1 (pre : Pre s0 w fresh0) (pre2 : Pre2 s0 w fresh0) (p3 : Pre3 
 /-- **A successful commit makes every new node visible**: the first root of an empty store at version 0, every node
 added by a split at version 1, each under the blob written for it. -/
 theorem commit_ok_new_nodes (pre : Pre s0 w fresh0) (pre2 : Pre2 s0 w fresh0) (p3 : Pre3 w)
-    (fault : Option Fault) (tid : Tid) (n : Nat) (r2 : Run) (ht : w.hasTracked = true)
-    (hok : commit w n { s := s0, tid := tid, fault := fault, fresh := fresh0 } = (.ok, r2)) :
+    (fault : Option Fault) {cs0 : Step} (tid : Tid) (n : Nat) (r2 : Run) (ht : w.hasTracked = true)
+    (hok : commit w n { s := s0, tid := tid, fault := fault, fresh := fresh0, cs := cs0 } = (.ok, r2)) :
     (∀ i ∈ w.rootIds, r2.s.view i = some (i, 0)) ∧ (∀ i ∈ w.addedIds, r2.s.view i = some (i, 1)) := by
-  have hj0 : J0 s0 w fresh0 { s := s0, tid := tid, fault := fault, fresh := fresh0 } :=
+  have hj0 : J0 s0 w fresh0 { s := s0, tid := tid, fault := fault, fresh := fresh0, cs := cs0 } :=
     ⟨⟨SInv.init s0 w fresh0 pre, fun _ hp => hp⟩, rfl, rfl⟩
   have h1 := new_phase1 pre pre2 p3 n _ hj0
   unfold commit at hok
-  cases hp : phase1 w n { s := s0, tid := tid, fault := fault, fresh := fresh0 } with
+  cases hp : phase1 w n { s := s0, tid := tid, fault := fault, fresh := fresh0, cs := cs0 } with
   | error r1 =>
     rw [hp] at hok
     simp only at hok
